@@ -3,6 +3,8 @@
 implementation's observation (development aid and replay pretty-printer)"""
 import sys, subprocess
 
+STARTS = []
+
 def dec(c):
     assert c[0] == 1
     n = c[1]; p = 2 + 3 * n
@@ -20,7 +22,9 @@ def dec(c):
         nonlocal p
         k = c[p]; ts = c[p + 1:p + 1 + k]; p += 1 + k
         return ts
+    STARTS.clear()
     while p < len(c):
+        STARTS.append(p)
         o = c[p]
         if 100 <= o <= 115:
             p += 1
